@@ -2,6 +2,7 @@ package __PKG__
 
 import (
 	"context"
+	"reflect"
 
 	"github.com/hashicorp/go-kms-wrapping/v2/aead"
 )
@@ -21,6 +22,8 @@ type pLeaf struct {
 	NilB  []byte `class:"sensitive"`
 	Num   int
 }
+
+type pIgn struct{ Token string }
 
 type pNested struct {
 	Inner *pLeaf
@@ -223,12 +226,19 @@ func H_C09_nested() {
 	in := &pNested{Inner: inner, List: []string{nondetString(), nondetString()}, BL: [][]byte{[]byte(nondetString())}, SPtr: &s,
 		M: map[string]interface{}{"k1": nondetString(), "k2": 7, "sub": map[string]interface{}{"k3": nondetString()}}}
 	in.Val.Sec = nondetString()
+	ign := &pIgn{Token: nondetString()}
+	ignTok := ign.Token
+	if nondetBool() {
+		// an ignored type reached through a map value (the map sweep does not consult IgnoreTypes)
+		c.ef.IgnoreTypes = []reflect.Type{reflect.TypeOf(&pIgn{})}
+		in.M["ign"] = ign
+	}
 	l0, l1, b0, s0, k1, vsec := in.List[0], in.List[1], string(in.BL[0]), s, in.M["k1"].(string), in.Val.Sec
 	k3 := in.M["sub"].(map[string]interface{})["k3"].(string)
 	e := newEvent(in)
 	out, err := c.ef.Process(context.Background(), e)
 	verifAssert(in.List[0] == l0 && in.List[1] == l1 && string(in.BL[0]) == b0 && *in.SPtr == s0 && in.M["k1"].(string) == k1 &&
-		in.M["sub"].(map[string]interface{})["k3"].(string) == k3 && in.Inner.Sec == isnap.Sec && in.Val.Sec == vsec, "C10.nested.original-untouched")
+		in.M["sub"].(map[string]interface{})["k3"].(string) == k3 && in.Inner.Sec == isnap.Sec && in.Val.Sec == vsec && ign.Token == ignTok, "C10.nested.original-untouched")
 	if c.o.allNone() || (c.w == nil && c.o.needsWrapper()) || err != nil {
 		if err != nil {
 			verifAssert(out == nil, "C09.nested.error-forwards-nothing")
@@ -241,7 +251,7 @@ func H_C09_nested() {
 		return
 	}
 	c.checkLeafStruct(op.Inner, &isnap, "C09.nested.inner")
-	verifAssert(len(op.List) == 2 && len(op.BL) == 1 && op.SPtr != nil && len(op.M) == 3, "C10.nested.shape-preserved")
+	verifAssert(len(op.List) == 2 && len(op.BL) == 1 && op.SPtr != nil && len(op.M) == len(in.M), "C10.nested.shape-preserved")
 	if len(op.List) == 2 && len(op.BL) == 1 && op.SPtr != nil {
 		c.checkLeaf(op.List[0], l0, "sensitive", NoOperation, "C09.nested.list")
 		c.checkLeaf(op.List[1], l1, "sensitive", NoOperation, "C09.nested.list")
@@ -309,7 +319,7 @@ func H_C09_toplevel() {
 	case 0:
 		e.Payload = map[string]interface{}{"k": a, "n": 1}
 	case 1:
-		e.Payload = tMapPayload{"token": a, "user": b, "note": "n", "other": a}
+		e.Payload = tMapPayload{"token": a, "user": b, "note": "n", "other": a, "sub": map[string]interface{}{"token": b, "x": a}}
 	case 2:
 		e.Payload = []string{a, b}
 	case 3:
@@ -348,6 +358,14 @@ func H_C09_toplevel() {
 			c.checkLeaf(usr, b, "sensitive", HmacSha256Operation, "C09.toplevel.taggable.sensitive")
 			verifAssert(m["note"] == "n", "C09.toplevel.taggable.public-kept")
 			c.checkLeaf(oth, a, "", NoOperation, "C09.toplevel.taggable.untagged-entry")
+			if sub, ok := m["sub"].(map[string]interface{}); ok {
+				st, _ := sub["token"].(string)
+				sx, _ := sub["x"].(string)
+				c.checkLeaf(st, b, "", NoOperation, "C09.toplevel.taggable.nested-map-same-key")
+				c.checkLeaf(sx, a, "", NoOperation, "C09.toplevel.taggable.nested-map-value")
+			} else {
+				verifAssert(false, "C10.toplevel.taggable.nested-map-preserved")
+			}
 		}
 	case 2:
 		l, ok := out.Payload.([]string)
